@@ -613,7 +613,8 @@ func (vc *VC) pickPatterns(body string, bv string) []string {
 				head = head[:sp]
 			}
 			g, ok := vc.gdefs[head]
-			if (ok && g.Decl != "" && !strings.HasPrefix(g.Decl, "(declare-datatypes")) || strings.HasPrefix(head, "elem.") {
+			selectOnBv := head == "select" && strings.HasSuffix(term, " "+bv+")") && !strings.Contains(term[:len(term)-len(bv)-2], bv)
+			if (ok && g.Decl != "" && !strings.HasPrefix(g.Decl, "(declare-datatypes")) || strings.HasPrefix(head, "elem.") || selectOnBv {
 				if !strings.Contains(term, "(let ") && !seen[term] && patternOK(vc.expandDefs(term)) {
 					seen[term] = true
 					pats = append(pats, term)
